@@ -317,6 +317,28 @@ func (s *Sim) park(g *G, kind, detail string, decide func(t *Tape) string) {
 // freeTape yields only benign choices; used when parks pass through.
 var freeTape = ReplayTape(nil)
 
+// IsParked reports whether the named goroutine currently waits for the
+// scheduler (as opposed to being blocked on something else). Only meaningful
+// at quiescence (from a monitor).
+func (s *Sim) IsParked(name string) bool {
+	s.mu.Lock()
+	defer s.mu.Unlock()
+	for _, r := range s.parked {
+		if r.g.Name == name {
+			return true
+		}
+	}
+	return false
+}
+
+// GName returns the simulator name of the calling goroutine.
+func GName() string {
+	if s := cur.Load(); s != nil {
+		return s.curG().Name
+	}
+	return ""
+}
+
 // AddMonitor registers a callback run by the scheduler at every quiescence.
 func (s *Sim) AddMonitor(f func()) { s.monitors = append(s.monitors, f) }
 
